@@ -163,3 +163,14 @@ func invComposePorts(outputPolicy MergedPeerAuthentication, workloadPolicy *v1be
 		return in && got == model.ConvertToMutualTLSMode(m.Mode)
 	})
 }
+
+// The per-port lookup used when inbound filter chains are built: the port-level mode when the port has
+// one, else the workload-wide mode.
+//
+//verif:contract (policyApplier).GetMutualTLSModeForPort
+//verif:prop C10
+func ctGetMutualTLSModeForPort(a policyApplier, endpointPort uint32) {
+	m := a.GetMutualTLSModeForPort(endpointPort)
+	pm, has := a.consolidatedPeerPolicy.PerPort[endpointPort]
+	verif.Ensures("port-level-over-workload-wide", (has && m == pm) || (!has && m == a.consolidatedPeerPolicy.Mode))
+}
